@@ -555,7 +555,12 @@ func (w *runner[T]) build(name string, vals []int, ci, mode int) *model[T] {
 	m := &model[T]{name: name, mask: 1 << ci, held: w.vals(vals)}
 	switch mode {
 	case 0:
-		m.h = heap.FromSlice(w.vals(vals), w.k.cmps[ci]) // FromSlice owns its argument: hand it a private copy
+		// FromSlice owns its argument: hand it a private copy; every other one has spare capacity (as a slice grown by append has)
+		arg := w.vals(vals)
+		if len(vals)%2 == 1 {
+			arg = append(make([]T, 0, len(vals)+5), arg...)
+		}
+		m.h = heap.FromSlice(arg, w.k.cmps[ci])
 	case 1:
 		m.h = heap.NewHeap(w.k.cmps[ci])
 		m.h.Push(w.vals(vals)...)
@@ -826,6 +831,8 @@ type SortCase struct {
 	Elem int   `json:"elem"`
 	Cmp  int   `json:"cmp"`
 	Data []int `json:"data,omitempty"`
+	// Spare: the slice handed to Sort has this much capacity beyond its length (as a slice grown by append has)
+	Spare int `json:"spare,omitempty"`
 }
 
 func sortBounds(thorough bool) (maxLen, nv int) {
@@ -837,7 +844,7 @@ func sortBounds(thorough bool) (maxLen, nv int) {
 
 func sortEnum(s pbt.Src, thorough bool) SortCase {
 	maxLen, nv := sortBounds(thorough)
-	c := SortCase{Elem: s.Intn(2), Cmp: s.Intn(2)}
+	c := SortCase{Elem: s.Intn(2), Cmp: s.Intn(2), Spare: s.Intn(2) * 3}
 	c.Data = pbt.Seq(s, 0, maxLen, func(s pbt.Src) int { return s.Intn(nv) })
 	return c
 }
@@ -847,7 +854,7 @@ func sortGen(s pbt.Src, thorough bool) SortCase {
 	if thorough {
 		max = 1000
 	}
-	c := SortCase{Elem: s.Intn(2), Cmp: s.Intn(2)}
+	c := SortCase{Elem: s.Intn(2), Cmp: s.Intn(2), Spare: s.Intn(3) * s.Intn(40)}
 	width := s.Intn(3)
 	c.Data = pbt.Seq(s, 0, max, func(s pbt.Src) int { return genVal(s, width) })
 	return c
@@ -855,7 +862,7 @@ func sortGen(s pbt.Src, thorough bool) SortCase {
 
 func sortOutOfEnum(c SortCase, thorough bool) bool {
 	maxLen, nv := sortBounds(thorough)
-	if len(c.Data) > maxLen {
+	if len(c.Data) > maxLen || (c.Spare != 0 && c.Spare != 3) {
 		return true
 	}
 	for _, v := range c.Data {
@@ -871,9 +878,15 @@ func runSort[T comparable](k kind[T], c SortCase, r *pbt.R) error {
 	ci := c.Cmp & 1
 	cmp := k.cmps[ci]
 	in := w.vals(c.Data)
-	out := heap.Sort(w.vals(c.Data), cmp)
+	spare := c.Spare
+	if spare < 0 || spare > 4096 {
+		spare = 0
+	}
+	arg := make([]T, len(in), len(in)+spare)
+	copy(arg, in)
+	out := heap.Sort(arg, cmp)
 	ctx := func() string {
-		return fmt.Sprintf("Sort(%v as %s, %s)", c.Data, k.name, cmpNames[c.Elem&1][ci])
+		return fmt.Sprintf("Sort(%v as %s with %d spare capacity, %s)", c.Data, k.name, spare, cmpNames[c.Elem&1][ci])
 	}
 	if !w.sameMultiset(out, in) {
 		return fmt.Errorf("%s = %v is not a permutation of the input", ctx(), out)
@@ -902,6 +915,9 @@ func runSort[T comparable](k kind[T], c SortCase, r *pbt.R) error {
 	r.NonTrivialIf(len(in) >= 3 && distinct, ">= 3 elements, >= 2 different keys")
 	if len(in) >= 8 {
 		r.Label("depth >= 4")
+	}
+	if spare > 0 {
+		r.Label("argument with spare capacity")
 	}
 	return nil
 }
@@ -945,7 +961,7 @@ func TestProp(t *testing.T) {
 		},
 		&pbt.Check[SortCase]{
 			Name: "sort",
-			Rule: "heap.Sort(copy of data, cmp): the returned slice is a permutation of the input and no earlier element precedes a later one under the comparator; " +
+			Rule: "heap.Sort(copy of data with 0 or 3 (random: up to 78) elements of spare capacity, cmp): the returned slice is a permutation of the input and no earlier element precedes a later one under the comparator; " +
 				"enumerated: every slice of <= 9 values over 3 values (thorough <= 10 over 4) x int{<,>} / struct-by-K{<,>}; random: up to 200 (1000) values from 0..7, 0..63 or +-10^6. " +
 				"Non-trivial = >= 3 elements with >= 2 different keys.",
 			Enum: sortEnum, Gen: sortGen, Prop: sortProp, OutOfEnum: sortOutOfEnum,
